@@ -45,7 +45,13 @@ type C03Op struct {
 	Cut string `json:"cut,omitempty"`
 	Sub int    `json:"sub,omitempty"` // 1-based index into c03Subnets: the client-subnet option the query carries
 	Pre bool   `json:"pre,omitempty"` // a COOKIE option precedes the client-subnet option in the OPT record
+	// Alias: the question is alias.<labels>.uq.test.; the zone answers it with a CNAME to
+	// tgt.<labels>.uq.test. and nothing else, so the target leg is completed by the cache's own
+	// chase — which has to stay in the client's CD partition like any other lookup.
+	Alias bool `json:"alias,omitempty"`
 }
+
+var c03AliasLabel, c03TargetLabel = hex.EncodeToString([]byte("alias")), hex.EncodeToString([]byte("tgt"))
 
 type C03Scenario struct {
 	MaskBits int     `json:"mask_bits,omitempty"` // 0 = full 64-bit keys
@@ -205,6 +211,25 @@ func genC03(r *kit.RNG) *C03Scenario {
 			C03Op{GapMs: kit.Pick(r, []int{200000, 250000}), Labels: ls, Type: qt, Wire: r.Chance(0.5), Sub: sub, Pre: r.Chance(0.7)},
 			C03Op{GapMs: 3000, Labels: ls, Type: qt, Wire: r.Chance(0.5)},
 			C03Op{GapMs: 1000, Labels: ls, Type: qt, Wire: r.Chance(0.5), Sub: sub})
+	}
+	if sc.ECS == "" && r.Chance(0.3) {
+		// alias recipe: the target is cached in one CD partition, then the alias is asked in
+		// the other (miss, then hit), then in the first
+		ls := kit.Pick(r, bases)
+		if len(ls) > 3 {
+			ls = ls[:3]
+		}
+		if !c03Below(c03Wire(ls)) {
+			qt := kit.Pick(r, []uint16{dns.TypeA, dns.TypeA, dns.TypeTXT})
+			first := r.Chance(0.3)
+			tgt := append([]string{c03TargetLabel}, ls...)
+			at := r.Intn(len(sc.Ops) + 1)
+			rec := []C03Op{{GapMs: 300, Labels: tgt, Type: qt, CD: first, Wire: r.Chance(0.5)},
+				{GapMs: 500, Labels: ls, Type: qt, CD: !first, Wire: r.Chance(0.5), Alias: true},
+				{GapMs: 500, Labels: ls, Type: qt, CD: !first, Wire: r.Chance(0.5), Alias: true},
+				{GapMs: 500, Labels: ls, Type: qt, CD: first, Wire: r.Chance(0.5), Alias: true}}
+			sc.Ops = append(sc.Ops[:at:at], append(rec, sc.Ops[at:]...)...)
+		}
 	}
 	if r.Chance(0.35) {
 		// a validated denial cached under CD=0 must not answer the CD=1 partition
@@ -380,6 +405,10 @@ func c03Run(sc *C03Scenario, tr *kit.Trace, res *kit.Result) {
 		case c03Below(wire):
 			m.Rcode = dns.RcodeNameError
 			m.Ns = []dns.RR{soa}
+		case len(wire) > 6 && string(wire[:6]) == "\x05alias" && qq.Qtype != dns.TypeCNAME:
+			// the alias and nothing else: the target leg is the resolver's business
+			rest, _, _ := dns.UnpackDomainName(wire, 6)
+			m.Answer = []dns.RR{&dns.CNAME{Hdr: dns.RR_Header{Name: qq.Name, Rrtype: dns.TypeCNAME, Class: dns.ClassINET, Ttl: 300}, Target: "tgt." + rest}}
 		case qq.Qtype == dns.TypeA:
 			ip, _ := c03Data(append(append([]byte(nil), wire...), audTag...), qq.Qtype, q.Msg.CheckingDisabled)
 			m.Answer = []dns.RR{&dns.A{Hdr: dns.RR_Header{Name: qq.Name, Rrtype: dns.TypeA, Class: dns.ClassINET, Ttl: 300}, A: ip[:]}}
@@ -413,6 +442,11 @@ func c03Run(sc *C03Scenario, tr *kit.Trace, res *kit.Result) {
 				return
 			}
 			continue
+		}
+		var tgtWire []byte
+		if op.Alias {
+			tgtWire = c03Wire(append([]string{c03TargetLabel}, op.Labels...))
+			op.Labels = append([]string{c03AliasLabel}, op.Labels...)
 		}
 		wire := c03Wire(op.Labels)
 		if len(wire) > 250 {
@@ -505,6 +539,39 @@ func c03Run(sc *C03Scenario, tr *kit.Trace, res *kit.Result) {
 			return
 		}
 		if want != dns.RcodeSuccess {
+			continue
+		}
+		if op.Alias {
+			// the alias itself, then the target's data for this type in this CD partition
+			ip, txt := c03Data(tgtWire, op.Type, op.CD)
+			okAlias, okData := false, op.Type != dns.TypeA && op.Type != dns.TypeTXT
+			extra := ""
+			for _, rr := range reply.Answer {
+				switch x := rr.(type) {
+				case *dns.CNAME:
+					okAlias = true
+				case *dns.A:
+					if op.Type == dns.TypeA && x.A.To4() != nil && [4]byte(x.A.To4()) == ip {
+						okData = true
+					} else {
+						extra = rr.String()
+					}
+				case *dns.TXT:
+					if op.Type == dns.TypeTXT && strings.Join(x.Txt, "") == txt {
+						okData = true
+					} else {
+						extra = rr.String()
+					}
+				default:
+					extra = rr.String()
+				}
+			}
+			if !okAlias || !okData || extra != "" {
+				res.Fail("C03/answer-of-another-question", "op %d (%s ingress): alias %q/%s cd=%v must carry the CNAME and the target's data for this type and CD partition (%v / %q); the reply carries %s — data of a different name, type or CD partition (key mask %d bits)\n%s",
+					i, ingress, text, dns.TypeToString[op.Type], op.CD, netip.AddrFrom4(ip), txt, extra, sc.MaskBits, reply)
+				return
+			}
+			res.Probes["alias-completed-by-the-cache"]++
 			continue
 		}
 		if sc.ECS != "" && (op.Type == dns.TypeA || op.Type == dns.TypeTXT) {
